@@ -63,19 +63,19 @@ Fixpoint find_env (evs : list ev) (idx : nat) (q : bytes) (ok : bool)
 
 (** the run is expected to deliver: no injected fault, enough data, within the size limit,
     one transaction *)
-Definition expect_delivery (cfg : rxcfg) (cmds : list (nat * bool * nat)) (stream : bytes) (rfail : option nat) : bool :=
-  negb (c_qinit_fail cfg) && match c_wfail cfg with None => true | Some _ => false end
+Definition expect_delivery (cfg : rxcfg) (qf : bool) (cmds : list (nat * bool * nat)) (stream : bytes) (rfail : option nat) : bool :=
+  negb qf && match c_wfail cfg with None => true | Some _ => false end
   && match rfail with None => true | Some _ => false end
   && Nat.leb (total cmds) (c_maxbytes cfg) && Nat.leb (total cmds) (length stream)
   && negb (match cmds with [] => true | _ => false end)
   && forallb (fun c => negb (snd (fst c))) (removelast cmds)
   && snd (fst (last cmds (0, false, 0))).
 
-Definition spec_ok_C19_rx (cfg : rxcfg) (cmds : list (nat * bool * nat)) (stream : bytes) (rfail : option nat)
+Definition spec_ok_C19_rx (cfg : rxcfg) (qf : bool) (cmds : list (nat * bool * nat)) (stream : bytes) (rfail : option nat)
            (evs : list ev) : bool :=
   no_env_after_fail false evs &&
   match find_env evs 0 [] true with
-  | None => negb (expect_delivery cfg cmds stream rfail)
+  | None => negb (expect_delivery cfg qf cmds stream rfail)
   | Some (idx, n, q, ok, rest) =>
       let tot := total (firstn (S idx) cmds) in
       ok && Nat.eqb n tot && bytes_eqb q (crlf2lf (firstn tot stream))
